@@ -33,3 +33,20 @@ pub open spec fn steps_verified(layout: LayoutMetadata, dir: Seq<char>) -> bool 
         loaded(layout, dir, l0) && thresholds_ok(layout, l0, l1) && sublayouts_ok(layout, l1, dir, l2)
         && agree_ok(layout, l2) && reduced_ok(l2, red) && step_rules_ok(layout, red)
 }
+// C15: the summary carries the first step's materials and the last step's products, byproducts and command
+pub open spec fn summary_of(layout: LayoutMetadata, red: Map<String, LinkMetadata>, name: Seq<char>, l: LinkMetadata) -> bool {
+    l.name@ == name
+    && (layout.steps@.len() > 0 ==> {
+        let first = red[layout.steps@[0].name];
+        let last = red[layout.steps@[layout.steps@.len() - 1].name];
+        l.materials == first.materials && l.products == last.products && l.byproducts == last.byproducts && l.command == last.command })
+}
+// what a successful final-product verification guarantees (C01, C06, C08)
+pub open spec fn verified(mb: Metablock, keys: Map<KeyId, PublicKey>, dir: Seq<char>) -> bool {
+    owner_gate(mb, keys)
+    && mb.metadata is Layout
+    && steps_verified(mb.metadata->Layout_0, dir)
+    && exists|ins: Map<String, LinkMetadata>, red: Map<String, LinkMetadata>| #![trigger inspections_ran(mb.metadata->Layout_0, ins), inspection_rules_ok(mb.metadata->Layout_0, red)]
+        inspections_ran(mb.metadata->Layout_0, ins) && inspection_rules_ok(mb.metadata->Layout_0, red)
+}
+
